@@ -143,8 +143,8 @@ PROPERTIES.update({
     "C09": {
         "modules": ["most", "interface", "purity"], "level": "proof", "floor": 120,
         "assumptions": COMMON + [A["A2"], A["A8"]], "trusted": [T["Z3"]],
-        "explanation": "vertical_profiles (MOST, MOSTM, CONSTANT; z0 given / u* given; default and explicit stretch/domain height): first node = roughness length, node n = measurement height, wind vector reproduced at node n, direction constant, K = kappa u* z/(phi(z/L) Pr) (MOSTM split sums to K, none along the flow), diabatic log law, z0 <-> u* round trip returns identical grid and profiles; psi is the integral of the flux-gradient function (psi' = (phi_m - 1)/x on both branches by symbolic differentiation of the code's own expression), psi(0) = 0, psi and phi continuous at neutral, agreement with the reference model's _psiM/_phiC/_phiM. The OAAHOC closure (tke given or defaulted) is under the same contract: z0 = zm exp(-cm cl |U| sqrt(e)/u*^2), logarithmic wind reproducing (u,v) at node n, K = ch cl z sqrt(e), one-dimensional outputs. ORDER CLAUSES (SMT, exp/log uninterpreted with ground order instances only for the applications that occur, A8): the stretched grid is z = -h log A(k) with A(k) = E0 - k (E0 - Em)/n; for every node below the asymptote of the map (A(k) > 0, i.e. the node is not NaN) the grid is strictly increasing, every height >= z0 > 0, every K > 0 (for a positive friction velocity), and the top node is at or above the domain height (np.arange length fact, A2); for the DEFAULT grid (stretch = domain height = 2 zm) with n >= 2 layers every node is below the asymptote (value-view identities for the arange arguments + a polynomial lemma over fresh reals + rational enclosures of e^-1, e^-1/2). Left to the bounded stand-in: the premise A(N-1) > 0 for n = 1 and for explicit (stretch, domain_height) -- where it is FALSE for a domain height far above the stretch height (top node NaN; outside the property's quantifier, recorded as an interpretation note) -- and positivity of a DERIVED friction velocity (needs ln(zm/z0) + psi(zm/L) > 0).",
-        "level_text": "Equalities of the closure proved in real arithmetic with named exp/log/pow/arctan axiom instances; order clauses proved for every node below the asymptote of the grid map and for the whole default grid with n >= 2; the remaining premise is bounded.",
+        "explanation": "vertical_profiles (MOST, MOSTM, CONSTANT; z0 given / u* given; default and explicit stretch/domain height): first node = roughness length, node n = measurement height, wind vector reproduced at node n, direction constant, K = kappa u* z/(phi(z/L) Pr) (MOSTM split sums to K, none along the flow), diabatic log law, z0 <-> u* round trip returns identical grid and profiles; psi is the integral of the flux-gradient function (psi' = (phi_m - 1)/x on both branches by symbolic differentiation of the code's own expression), psi(0) = 0, psi and phi continuous at neutral, agreement with the reference model's _psiM/_phiC/_phiM. The OAAHOC closure (tke given or defaulted) is under the same contract: z0 = zm exp(-cm cl |U| sqrt(e)/u*^2), logarithmic wind reproducing (u,v) at node n, K = ch cl z sqrt(e), one-dimensional outputs. ORDER CLAUSES (SMT, exp/log uninterpreted with ground order instances only for the applications that occur, A8): the stretched grid is z = -h log A(k) with A(k) = E0 - k (E0 - Em)/n; for every node below the asymptote of the map (A(k) > 0, i.e. the node is not NaN) the grid is strictly increasing, every height >= z0 > 0, every K > 0 (for a positive friction velocity), and the top node is at or above the domain height (np.arange length fact, A2); for the DEFAULT grid (stretch = domain height = 2 zm) with n >= 1 layers every node is below the asymptote (for n = 1 the integrality of the node count is used) (value-view identities for the arange arguments + a polynomial lemma over fresh reals + rational enclosures of e^-1, e^-1/2). Left to the bounded stand-in: the premise A(N-1) > 0 for explicit (stretch, domain_height) -- where it is FALSE for a domain height far above the stretch height (top node NaN; outside the property's quantifier, recorded as an interpretation note) -- and positivity of a DERIVED friction velocity (needs ln(zm/z0) + psi(zm/L) > 0).",
+        "level_text": "Equalities of the closure proved in real arithmetic with named exp/log/pow/arctan axiom instances; order clauses proved for every node below the asymptote of the grid map and for the whole default grid (n >= 1); the remaining premise (explicit stretch / domain height) is bounded.",
         "level_note": "A1, A2 (np.arange length), A8 (named axiom instances incl. derivative rules).",
     },
     "C17": {
